@@ -193,9 +193,10 @@ def build(spec, hist, check=True):
 
 def _explore_prefix(task):
     """All histories that start with `prefix` (inclusive) up to `depth`."""
-    ref, prefix, depth, table = task
+    ref, prefix, depth, table = task[:4]
+    alphabet, min_len = (task[4], task[5]) if len(task) > 4 else (None, 1)
     spec = get_spec(ref) if table is None else install_baseline(ref, table)
-    nops = len(spec.ops)
+    alphabet = list(range(len(spec.ops))) if alphabet is None else list(alphabet)
     prefix = tuple(prefix)
     histories = applied = same_twice = 0
     states = set()
@@ -203,7 +204,9 @@ def _explore_prefix(task):
     fails = []
     outcome_kinds = {}
     for extra_len in range(0, depth - len(prefix) + 1):
-        for tail in itertools.product(range(nops), repeat=extra_len):
+        if len(prefix) + extra_len < min_len:
+            continue
+        for tail in itertools.product(alphabet, repeat=extra_len):
             h = prefix + tail
             if not h:
                 continue
@@ -234,7 +237,7 @@ def _explore_prefix(task):
     }
 
 
-def explore(ref, depth, table, plen=2, name=None, others=()):
+def explore(ref, depth, table, plen=2, name=None, others=(), alphabet=None, min_len=1):
     """All histories of length 1..depth over the spec's operations, smallest
     first.  `table` is the pristine baseline from `baseline()` (it also gives
     the number of operations); it travels with every task.  The spec itself
@@ -244,14 +247,17 @@ def explore(ref, depth, table, plen=2, name=None, others=()):
     nops = len(table)
     if sorted(table) != list(range(nops)):
         raise RuntimeError(f"{ref}: baseline covers {sorted(table)}")
+    # `alphabet` restricts the operations used (indices), `min_len` skips the
+    # shorter histories (already run by an exploration over a larger alphabet)
+    alpha = list(range(nops)) if alphabet is None else list(alphabet)
     plen = min(plen, depth)
     tasks = []
     # histories shorter than plen: one task per length-1.. prefix, no extension
-    for l in range(1, plen):
-        for p in itertools.product(range(nops), repeat=l):
-            tasks.append((ref, p, l, table))
-    for p in itertools.product(range(nops), repeat=plen):
-        tasks.append((ref, p, depth, table))
+    for l in range(max(1, min_len), plen):
+        for p in itertools.product(alpha, repeat=l):
+            tasks.append((ref, p, l, table, alpha, min_len))
+    for p in itertools.product(alpha, repeat=plen):
+        tasks.append((ref, p, depth, table, alpha, min_len))
     res = core.pmap(_explore_prefix, tasks)
     out = {"histories": 0, "applied": 0, "same_twice": 0, "states": set(),
            "last_state": {}, "fails": [], "outcome_kinds": {}}
